@@ -482,24 +482,24 @@ func (cs *Contracts) loadFile(path string) error {
 			}
 		case "uses":
 			// uses entryclosure, blockframe: opt-in facts assumed while verifying THIS function (see ext_crypto.go)
-			// Every other name is a LEMMA (ext_induct.go: `uses L1, L2` of a function or of a lemma): the two meanings of the keyword were
-			// introduced independently and are told apart by the name.
+			// uses L1, L2 (lemma names; on a lemma or a function): closures of lemmas proved in the same check (ext_induct.go).
+			// Both kinds may be mixed in one clause: fact names are taken here, every other name is a lemma name.
 			var lemmaNames []string
 			for _, f := range strings.FieldsFunc(rest, func(r rune) bool { return r == ',' || r == ' ' || r == '\t' }) {
-				if f != "entryclosure" && f != "blockframe" && f != "readsframe" {
-					lemmaNames = append(lemmaNames, f)
+				if f == "entryclosure" || f == "blockframe" || f == "readsframe" {
+					if cur == nil {
+						return fail(fmt.Errorf("uses %s outside func", f))
+					}
+					if cur.Uses == nil {
+						cur.Uses = map[string]bool{}
+					}
+					cur.Uses[f] = true
 					continue
 				}
-				if cur == nil {
-					return fail(fmt.Errorf("uses %s outside func", f))
-				}
-				if cur.Uses == nil {
-					cur.Uses = map[string]bool{}
-				}
-				cur.Uses[f] = true
+				lemmaNames = append(lemmaNames, f)
 			}
 			if len(lemmaNames) > 0 {
-				if _, err := extClause(word, strings.Join(lemmaNames, " "), pkg, cur, curLemma); err != nil {
+				if _, err := extClause("uses", strings.Join(lemmaNames, ", "), pkg, cur, curLemma); err != nil {
 					return fail(err)
 				}
 			}
